@@ -733,7 +733,9 @@ func TestC11(t *testing.T) {
 	// every app sequence up to the bound
 	maxLen := 3
 	if !rec.Quick() {
-		maxLen = 5
+		// (length 5 is 4.8 million handshakes: some 2.5 h under the race detector on a
+		// loaded machine; it is sampled below instead)
+		maxLen = 4
 	}
 	var seqs [][]int
 	var build func(cur []int)
@@ -766,6 +768,29 @@ func TestC11(t *testing.T) {
 		}
 	})
 	rec.Exhaustive("exhaustive")
+	// a fixed sample of the sequences of length 5 (thorough tier)
+	n5 := 1
+	for range 5 {
+		n5 *= len(al)
+	}
+	rec.Suite("length-5-sample", rec.N(0, 20000)*presence, func(c *ev.Case) {
+		k, pi := c.I/presence, c.I%presence
+		idx := int((uint64(k)*2654435761 + rec.Seed*97) % uint64(n5))
+		apps := make([]int, 5)
+		for i := range apps {
+			apps[i] = idx % len(al)
+			idx /= len(al)
+		}
+		cc := c11Case{host: pi&1 == 0, realm: pi&2 == 0, inband: pi/4 - 1, inband2: -1, apps: apps}
+		cc.dress = (c.I / 12) % 5
+		cc.nAddrs = c.I % 3
+		cc.ipv6 = (c.I/3)%2 == 1
+		c.Class("host=%v/realm=%v/inband=%d/napps=%d", cc.host, cc.realm, cc.inband, len(cc.apps))
+		leak := runBubbleWD(t, rec, c, 60*time.Second, func() { runC11(c, ctx, al, cc) })
+		if leak != "" && !c.Failed() {
+			c.Fail(ev.Sig{"op": "bubble-leak"}, nil, nil, "goroutines left blocked after the scenario: %s; %s", leak, cc.String(al))
+		}
+	})
 	// several connections on one state machine, in every order
 	orders := permutations(4)
 	rec.Suite("several-connections", len(orders)*rec.N(2, 100), func(c *ev.Case) {
